@@ -142,7 +142,7 @@ PROPS["C12"] = dict(level="exploration",
                  "blocking is decided from goroutine states (sync.Cond.Wait / sync.Mutex.Lock) sampled by the harness"],
     stages=[dict(name="stream", engine="stream", test="TestVerifStream", batches=dict(quick=8, thorough=16),
                  essential={"C12": ["C12.not-created-at-construction", "C12.creation-gated", "C12.recv-before-send", "C12.recv-waits-during-creation", "C12.recv-released",
-                                    "C12.first-message-visible", "C12.sends-in-order", "C12.recv-delegated", "C12.recv-gets-creation-error", "C12.late-recv-reaches-stream",
+                                    "C12.first-message-visible", "C12.retry-message-visible", "C12.sends-in-order", "C12.recv-delegated", "C12.recv-gets-creation-error", "C12.late-recv-reaches-stream",
                                     "C12.recv-returns-on-context-end", "C12.bystander:before-send", "C12.bystander-delegates", "C12.unary-transparent", "C12.unary-nested-context", "C12.recv-released-while-send-blocks", "C12.late-recv-after-cancel-reaches-stream", "C12.first-send-error-no-second-stream"]},
                  timeout=dict(quick=900, thorough=7200))])
 
